@@ -15,6 +15,10 @@ public / private-unprotected / private-locked / private-unlocked, with _require_
     changes what is selected; a certification revocation / attestation by the key - newer than the self-certification, with or
     without a KeyFlags subpacket of its own - changes nothing (repair 812bc0f); key flags that sit only in the unhashed area of the
     self-certification grant nothing and crash nothing (repair df70557).
+Key forms: the four uniform ones, and MIXED protection 'm:<letters>[:u]' - one letter per component (p = private without passphrase,
+l = passphrase-protected), ':u' = inside `with key.unlock()`: the conditions is_unlocked / is_public are those of the component that does
+the work (repair cab6d36).  An unknown user= is a PGPError refusal, a subkey without binding signature in effect grants nothing (a0cb78f);
+a key whose only identity is a user attribute takes its flags from it (1d6dbd1).
 The source text of the policy code and the @KeyAction lines are pinned."""
 import hashlib, inspect, logging, warnings
 from datetime import datetime, timezone, timedelta
@@ -24,8 +28,8 @@ from .common import Driver, Batch, load_repo
 PINNED = {
     'KeyAction.usage': '16a7e9cd1f721410',
     'KeyAction.check_attributes': '5bc1ee5f304ffbd0',
-    'KeyAction.__call__': '4c949a55df3a3092',
-    'PGPKey._get_key_flags': 'dc9a988c0f8dba20',
+    'KeyAction.__call__': 'c8bb870361fccd66',
+    'PGPKey._get_key_flags': '499d38d8d66239a4',
     'PGPKey.self_signatures': '818818841fb94aad',
     'PGPKey.get_uid': '02f8faf42768e92d',
     'PGPKey.is_public': 'ec42575bc2494da7',
@@ -47,6 +51,20 @@ OPS = ('sign', 'certify', 'revoke', 'revoker', 'bind', 'encrypt', 'decrypt')
 REQ = {'sign': 2, 'certify': 1, 'revoke': 1, 'revoker': 0, 'bind': 0, 'encrypt': 12, 'decrypt': 0}
 FORMS = ('public', 'private', 'locked', 'unlocked')
 CERTIFY, SIGN, ENCC, ENCS, AUTH = 1, 2, 4, 8, 32
+IMAGE = 3           # index of the user ATTRIBUTE (a JPEG) among the identities of the pool key
+
+
+def comp_forms(form, n):
+    """the form of each of the n components (receiver first) for a uniform or a mixed form string"""
+    if form in FORMS:
+        return [form] * n
+    parts = form.split(':')
+    m = {'p': 'private', 'l': 'unlocked' if len(parts) > 2 else 'locked'}
+    return [m[c] for c in parts[1]][:n]
+
+
+def inside_unlock(form):
+    return form == 'unlocked' or form.endswith(':u')
 NOFLAGS = -1        # self-signature / binding without a KeyFlags subpacket
 
 
@@ -127,6 +145,10 @@ class World:
                 self.muids.append(u)
             for i in (1, 2, 3):
                 m.add_subkey(pool[i], usage={KeyFlags.EncryptCommunications}, created=T(0))
+            # a user attribute (image) that is NOT attached to the pool key (its packets are used when keys are assembled)
+            ua = PGPUID.new(bytearray(b'\xff\xd8\xff\xe0\x00\x10JFIF' + bytes(12)))
+            ua._parent = m
+            self.muids.append(ua)
             self.master = m
             self.msubs = pool[1:4]
             # a second key: certification target, revoker, spare subkey for bind
@@ -200,19 +222,23 @@ class World:
             self.sigcache[key] = bytes(s)
         return self.sigcache[key]
 
-    def bindsig(self, i, mask, t):
-        key = ('b', i, mask, t)
+    def bindsig(self, i, mask, t, expired=False):
+        key = ('b', i, mask, t, expired)
         if key not in self.sigcache:
             with warnings.catch_warnings():
                 warnings.simplefilter('ignore')
-                s = self.master.bind(self.msubs[i - 1], usage=self.fset(mask), created=T(t))
+                kw = {'expires': timedelta(days=1)} if expired else {}
+                s = self.master.bind(self.msubs[i - 1], usage=self.fset(mask), created=T(t), **kw)
             self.sigcache[key] = bytes(s)
         return self.sigcache[key]
 
     def assemble(self, form, uids, subs, shuffle=None):
-        """uids: [[j, [[mask, t] or [mask, t, kind], ...]], ...] (kind: see othersig; absent = a Positive_Cert with hashed key flags);
-        subs: [[[mask, t], ...], ...] (subkey i+1 of the pool).  A real PGPKey."""
-        blob = bytearray(self.pkt[form][0])
+        """uids: [[j, [[mask, t] or [mask, t, kind], ...]], ...] (j = IMAGE: the user attribute; kind: see othersig; absent = a Positive_Cert
+        with hashed key flags); subs: [[[mask, t] or [mask, t, 'exp'], ...], ...] (subkey i+1 of the pool; 'exp' = a binding signature that
+        expired a day after it was made).  form: uniform or mixed (see comp_forms).  A real PGPKey."""
+        pform = {'private': 'private', 'public': 'public', 'locked': 'locked', 'unlocked': 'locked'}
+        cf = [pform[f] for f in comp_forms(form, 1 + len(subs))]
+        blob = bytearray(self.pkt[cf[0]][0])
         for j, sigs in uids:
             blob += self.uidpkt[j]
             sigs = list(sigs)
@@ -220,11 +246,11 @@ class World:
             for sg in sigs:
                 blob += self.selfsig(j, sg[0], sg[1]) if len(sg) == 2 else self.othersig(j, sg[0], sg[1], sg[2])
         for i, sigs in enumerate(subs):
-            blob += self.pkt[form][i + 1]
+            blob += self.pkt[cf[i + 1]][i + 1]
             sigs = list(sigs)
             if shuffle is not None: shuffle.shuffle(sigs)
-            for mask, t in sigs:
-                blob += self.bindsig(i + 1, mask, t)
+            for sg in sigs:
+                blob += self.bindsig(i + 1, sg[0], sg[1], expired=(len(sg) == 3))
         with warnings.catch_warnings():
             warnings.simplefilter('ignore')
             k, others = self.PGPKey.from_blob(bytes(blob))
@@ -234,9 +260,8 @@ class World:
 
 # ------------------------------------------------------------------------------------------------ reading a key back
 def describe(w, k, form, enforce, tok):
-    """the model's input, read off the real key object"""
+    """the model's input, read off the real key object (`form` is not used: the lock state of every component is read from the object)"""
     ST = w.SignatureType
-
     CERTS = (ST.Generic_Cert, ST.Persona_Cert, ST.Casual_Cert, ST.Positive_Cert)
 
     def sig_s(s, qual):
@@ -244,18 +269,27 @@ def describe(w, k, form, enforce, tok):
         # PGPSignature.key_flags, which is part of what the correspondence checks)
         sp = next(iter(s._signature.subpackets['h_KeyFlags']), None)
         return '%x/%x/%d/%d' % (int(s.created.timestamp()), 0 if sp is None else World.mask(sp.flags), int(qual), int(s.type in CERTS))
-    kid = str(k.fingerprint)[-16:]
+
+    def attr_s(c):
+        # packet class, keymaterial.s2k set, secret material present - below is_public / is_protected / is_unlocked
+        from pgpy.packet import Private
+        pub = not isinstance(c._key, Private)
+        prot = (not pub) and bool(c._key.keymaterial.s2k)
+        unl = prot and 0 not in list(c._key.keymaterial)
+        return '%d%d%d' % (int(pub), int(prot), int(unl))
+    holder = k if k.is_primary else k.parent            # a subkey receiver: get_uid searches the parent's identities
+    kid = str(holder.fingerprint)[-16:]
     uids = []
-    for u in k._uids:
+    for u in holder._uids:
         ids = [x for x in (u.name, u.comment, u.email) if x is not None]
         sigs = [sig_s(s, s.signer == kid) for s in u._signatures]
-        uids.append('%s@%s' % (','.join('%x' % tok(x) for x in ids) or '-', ','.join(sigs) or '-'))
+        uids.append('%s@%s@%d' % (','.join('%x' % tok(x) for x in ids) or '-', ','.join(sigs) or '-', int(bool(u.is_uid))))
 
     def bind_s(c, parentid):
         return ','.join(sig_s(s, s.type == ST.Subkey_Binding and s.signer == parentid and not s.is_expired) for s in c._signatures) or '-'
-    subs = [bind_s(c, kid) for c in k.subkeys.values()]
-    own = '-' if k.is_primary else bind_s(k, str(k.parent.fingerprint)[-16:])
-    bits = '1%d%d%d%d%d' % (int(k.is_primary), int(form == 'public'), int(form in ('locked', 'unlocked')), int(form == 'unlocked'), int(enforce))
+    subs = ['%s@%s' % (bind_s(c, kid), attr_s(c)) for c in k.subkeys.values()]
+    own = '-' if k.is_primary else bind_s(k, kid)
+    bits = '1%d%s%d' % (int(k.is_primary), attr_s(k), int(enforce))
     return '%s %s %s %s' % (bits, ';'.join(uids) or '_', own, ';'.join(subs) or '_')
 
 
@@ -265,12 +299,13 @@ def classify(ex):
     if name == 'PGPError':
         if msg == 'No key!': return 'nokey'
         if msg.startswith('Key is not complete'): return 'incomplete'
+        if 'has no user id matching' in msg: return 'nouser'
         if 'does not have the required usage flag' in msg: return 'nousage'
         if msg.startswith('Expected: is_unlocked'): return 'attr:is_unlocked'
         if msg.startswith('Expected: is_public'): return 'attr:is_public'
         return 'pgperror:' + msg[:60]
     if name == 'AttributeError' and "'NoneType' object has no attribute 'selfsig'" in msg: return 'crash:user'
-    if name == 'RuntimeError' and 'StopIteration' in msg: return 'crash:nobinding'
+    if name == 'RuntimeError' and 'StopIteration' in msg: return 'crash:stopiteration'
     return 'exc:%s:%s' % (name, msg[:80])
 
 
@@ -354,24 +389,26 @@ def names_used_key(w, k, op, out, r, ids):
 
 
 def oracle(req, flags, enforce, form, op, has_uid):
-    """the property text.  flags: most recent flag mask per component (primary already includes Certify).
+    """the property text.  flags: most recent flag mask per component (primary already includes Certify); form: uniform or mixed.
+    The conditions (private + unlocked for everything but encrypt, public for encrypt) are those of the component that does the work.
     -> 'refuse' | ('use', idx) | 'any'"""
     if not has_uid and op != 'certify':
         return 'refuse'
-    choice = 0
+    cf = comp_forms(form, len(flags))
+    choice, free = 0, False
     if req:
         cap = [i for i, f in enumerate(flags) if f & req]
         if cap: choice = cap[0]
         elif enforce: return 'refuse'
-        else: choice = None
+        else: choice, free = len(flags) - 1, True            # the loop variable still holds the last component
     if op == 'encrypt':
-        if form != 'public': return 'refuse'
-    elif form in ('public', 'locked'):
+        if cf[choice] != 'public': return 'refuse'
+    elif cf[choice] in ('public', 'locked'):
         return 'refuse'
-    return 'any' if choice is None else ('use', choice)
+    return 'any' if free else ('use', choice)
 
 
-REFUSALS = ('nokey', 'incomplete', 'nousage', 'attr:is_unlocked', 'attr:is_public')
+REFUSALS = ('nokey', 'incomplete', 'nouser', 'nousage', 'attr:is_unlocked', 'attr:is_public')
 
 
 class Runner:
@@ -420,7 +457,7 @@ class Runner:
         return out
 
     def with_form(self, form, k, fn):
-        if form == 'unlocked':
+        if inside_unlock(form):
             with warnings.catch_warnings():
                 warnings.simplefilter('ignore')
                 with k.unlock('pw'):
@@ -431,7 +468,7 @@ class Runner:
 def recent(sigs):
     """the flag mask in force for a list [[mask, t] or [mask, t, kind], ...] with distinct t: that of the most recent CERTIFICATION
     (entries of kind 'rev' / 'att' are not certifications; kind 'uflags' is a certification whose flags are not signed: none)"""
-    certs = [s for s in sigs if len(s) == 2 or s[2] == 'uflags']
+    certs = [s for s in sigs if len(s) == 2 or s[2] == 'uflags']       # (for a subkey: 'exp' = an expired binding, not in effect)
     if not certs:
         return 0
     s = max(certs, key=lambda s: s[1])
@@ -492,8 +529,8 @@ def sweep_identity(ctx, run, family, suite):
                                 case = {'suite': suite, 'form': form, 'uids': uids, 'subs': subs, 'op': op, 'user': user, 'enforce': enforce}
                                 flags = None if pf is None else [CERTIFY | (0 if pf == NOFLAGS else pf)] + list(sv)
                                 out = run.one(suite, k, form, enforce, op, user, case, flags=flags, verify=(n % 4 == 0))
-                                if pf is None and out != 'crash:user':
-                                    ctx.fail(suite, 'an unknown user= did not fail the way the model says (AttributeError on None.selfsig)', dict(case, impl=out))
+                                if pf is None and out != 'nouser':
+                                    ctx.fail(suite, 'an unknown user= is not refused with PGPError before anything else happens', dict(case, impl=out))
     run.bt.flush()
     return n
 
@@ -562,6 +599,83 @@ def sweep_revoked(ctx, run, family, suite):
             n += 1
             case = {'suite': suite, 'kind': 'live-' + kind, 'op': op}
             run.one(suite, k, 'private', True, op, None, case, flags=[CERTIFY | SIGN, ENCC], verify=True)
+    run.bt.flush()
+    return n
+
+
+def sweep_mixed(ctx, run, suite, thorough):
+    """mixed protection (repair cab6d36): every assignment of {no passphrase, passphrase} to the primary key and 1..2 subkeys, outside and
+    inside `with key.unlock()`, x which component carries the flag the operation needs: the conditions are those of the component chosen"""
+    import itertools
+    w = run.w
+    n = 0
+    pfs = (AUTH, SIGN) if not thorough else (AUTH, SIGN, ENCC | ENCS, 0)
+    for nsub in (1, 2):
+        svs = ([[SIGN], [ENCC | ENCS], [AUTH]] if nsub == 1 else [[AUTH, SIGN], [SIGN, SIGN], [ENCC, SIGN | ENCS]])
+        if thorough and nsub == 2:
+            svs += [[SIGN, AUTH], [0, 0], [CERTIFY, ENCC]]
+        for letters in itertools.product('pl', repeat=1 + nsub):
+            letters = ''.join(letters)
+            for unl in ((False, True) if 'l' in letters else (False,)):
+                form = 'm:' + letters + (':u' if unl else '')
+                for pf in pfs:
+                    for sv in svs:
+                        uids = [[0, [[pf, 0]]]]
+                        subs = [[[f, 0]] for f in sv]
+                        flags = [CERTIFY | pf] + list(sv)
+                        k = w.assemble(form, uids, subs)
+
+                        def body():
+                            nonlocal n
+                            for enforce in (True, False):
+                                for op in ('sign', 'certify', 'revoke', 'bind', 'revoker', 'decrypt', 'encrypt'):
+                                    n += 1
+                                    case = {'suite': suite, 'form': form, 'uids': uids, 'subs': subs, 'op': op, 'user': None, 'enforce': enforce}
+                                    run.one(suite, k, form, enforce, op, None, case, flags=flags, verify=(n % 5 == 0))
+                        run.with_form(form, k, body)
+    run.bt.flush()
+    return n
+
+
+def sweep_identity_kinds(ctx, run, suite):
+    """repair 1d6dbd1: the default identity is the first user id, or the first user attribute when the key has no user id; repair a0cb78f:
+    an unknown user= is refused (PGPError) for every operation, key form and flag assignment"""
+    w = run.w
+    n = 0
+    for uids, pf in (([[IMAGE, [[SIGN, 0]]]], SIGN), ([[IMAGE, [[ENCC | ENCS, 0]]]], ENCC | ENCS), ([[IMAGE, [[NOFLAGS, 0]]]], 0),
+                     ([[IMAGE, [[SIGN, 0]]], [0, [[ENCC, 1]]]], ENCC), ([[IMAGE, [[SIGN, 5]]], [1, [[AUTH, 0]]], [0, [[ENCS, 0]]]], None),
+                     ([[IMAGE, [[SIGN, 0], [NOFLAGS, 5, 'rev']]]], SIGN)):
+        for sv in ([], [SIGN], [ENCC]):
+            subs = [[[f, 0]] for f in sv]
+            for form in ('private', 'public'):
+                k = w.assemble(form, uids, subs)
+                if pf is None:          # two user ids: whichever PGPUID.__lt__ puts first (read from the key; the model is given the same order)
+                    first = next(u for u in k._uids if u.is_uid)
+                    pfk = World.mask(first.selfsig.key_flags)
+                else:
+                    pfk = pf
+                for enforce in (True, False):
+                    for op in ('sign', 'encrypt', 'certify', 'revoke'):
+                        n += 1
+                        case = {'suite': suite, 'form': form, 'uids': uids, 'subs': subs, 'op': op, 'user': None, 'enforce': enforce}
+                        out = run.one(suite, k, form, enforce, op, None, case, flags=[CERTIFY | pfk] + list(sv), verify=(n % 3 == 0))
+                        if out.startswith(('crash', 'exc')):
+                            ctx.fail(suite, 'a key whose identities include / are a user attribute makes the operation raise', dict(case, impl=out))
+    for uids in ([[0, [[SIGN, 0]]]], [[0, [[SIGN, 0]]], [1, [[ENCC, 0]]]], [[IMAGE, [[SIGN, 0]]]]):
+        for sv in ([], [SIGN | ENCC]):
+            subs = [[[f, 0]] for f in sv]
+            for form in ('private', 'public', 'locked') + (('m:pl', 'm:lp:u') if sv else ()):
+                k = w.assemble(form, uids, subs)
+                for enforce in (True, False):
+                    for op in OPS:
+                        if op in ('revoker', 'bind', 'decrypt'):
+                            continue                     # these methods take no user= argument
+                        for user in ('nobody', 'u', 'u1 ', 'e1@example.co'):
+                            n += 1
+                            case = {'suite': suite, 'form': form, 'uids': uids, 'subs': subs, 'op': op, 'user': user, 'enforce': enforce}
+                            out = run.one(suite, k, form, enforce, op, user, case)
+                            if out != 'nouser':
+                                ctx.fail(suite, 'an unknown user= is not refused with PGPError before anything else happens', dict(case, impl=out))
     run.bt.flush()
     return n
 
@@ -665,12 +779,19 @@ def special_receivers(ctx, run, suite):
                     want = oracle(REQ[op], [sf], enforce, form, op, True)
                     if (want == 'refuse') != (out in REFUSALS):
                         ctx.fail(suite, 'subkey as receiver: refusal differs from the policy', dict(case, impl=out))
-    # subkey whose only binding signatures do not qualify: the model says RuntimeError (StopIteration in a generator)
-    k = w.assemble('private', [[0, [[AUTH, 0]]]], [[], [[SIGN, 0]]])
-    for op in ('sign', 'encrypt', 'decrypt'):
-        case = {'suite': suite, 'kind': 'unbound-subkey', 'op': op}
-        kk = k if op != 'encrypt' else w.assemble('public', [[0, [[AUTH, 0]]]], [[], [[SIGN, 0]]])
-        run.one(suite, kk, 'private' if op != 'encrypt' else 'public', True, op, None, case)
+    # a subkey without binding signature in effect (none at all / only an expired one) grants nothing and is passed over (repair a0cb78f)
+    for first in ([], [[SIGN | ENCC, 0, 'exp']], [[SIGN | ENCC, 0, 'exp'], [AUTH, 1]]):
+        for last in ([[SIGN, 0]], [[ENCC, 0]], [[SIGN, 0, 'exp']]):
+            subs = [first, last]
+            flags = [CERTIFY | AUTH] + [0 if (not sg or all(len(x) == 3 for x in sg)) else max((x for x in sg if len(x) == 2), key=lambda x: x[1])[0] for sg in subs]
+            for op in ('sign', 'encrypt', 'decrypt', 'certify'):
+                form = 'public' if op == 'encrypt' else 'private'
+                for enforce in (True, False):
+                    case = {'suite': suite, 'kind': 'unbound-subkey', 'form': form, 'uids': [[0, [[AUTH, 0]]]], 'subs': subs, 'op': op, 'user': None, 'enforce': enforce}
+                    kk = w.assemble(form, case['uids'], subs)
+                    out = run.one(suite, kk, form, enforce, op, None, case, flags=flags)
+                    if out.startswith(('crash', 'exc')):
+                        ctx.fail(suite, 'a subkey without binding signature in effect makes the operation raise', dict(case, impl=out))
     bt.flush()
 
 
@@ -690,7 +811,7 @@ def decrypt_routing(ctx, run, suite):
             msgs.append(('to-%d-%d' % (a, b), [a, b], m))
     msgs.append(('to-stranger', [], w.enc_foreign))
     for nsub in range(0, 4):
-        for form in ('private', 'unlocked', 'locked', 'public'):
+        for form in ('private', 'unlocked', 'locked', 'public') + (('m:p' + 'l' * nsub, 'm:l' + 'p' * nsub, 'm:p' + 'l' * nsub + ':u', 'm:pl' + 'p' * (nsub - 1)) if nsub else ()):
             k = w.assemble(form, [[0, [[SIGN, 0]]]], [[[AUTH, 0]]] * nsub)      # flags play no part in decryption
 
             def body():
@@ -707,8 +828,12 @@ def decrypt_routing(ctx, run, suite):
                         if out.startswith('pgperror:Cannot decrypt'): out = 'cannot'
                     addressed = [i for i in to if i <= nsub]
                     # property: an addressed component of a usable private key decrypts; nothing addressed -> refusal
-                    if form in ('public', 'locked'):
-                        want = ('attr:is_public', 'attr:is_unlocked')
+                    cf = comp_forms(form, 1 + nsub)
+                    if cf[0] in ('public', 'locked'):
+                        want = ('attr:is_public', 'attr:is_unlocked')          # the receiver itself must be a usable private key
+                    elif addressed and 0 not in addressed and any(cf[i] == 'locked' for i in addressed):
+                        # delegated to an addressed subkey (one of them): that subkey's own lock state decides
+                        want = ('attr:is_unlocked',) if all(cf[i] == 'locked' for i in addressed) else ('attr:is_unlocked', 'ok')
                     elif addressed:
                         want = ('ok',)
                     else:
@@ -730,6 +855,22 @@ def decrypt_routing(ctx, run, suite):
 
 def precondition_forms(ctx, run, suite):
     w = run.w
+    # every component of a mixed key has its own is_public / is_protected / is_unlocked
+    for form in ('m:pl', 'm:lp', 'm:ll', 'm:pl:u', 'm:lp:u', 'm:lpl:u'):
+        k = w.assemble(form, [[0, [[SIGN, 0]]]], [[[SIGN, 0]]] * (len(form.split(':')[1]) - 1))
+
+        def mbody():
+            want = {'private': '0 0 1', 'locked': '0 1 0', 'unlocked': '0 1 1'}
+            comps = [k] + list(k.subkeys.values())
+            for i, (c, f) in enumerate(zip(comps, comp_forms(form, len(comps)))):
+                got = '%d %d %d' % (int(c.is_public), int(c.is_protected), int(c.is_unlocked))
+                bits = '11%d%d%d1' % (0, int(f in ('locked', 'unlocked')), int(f == 'unlocked'))
+                ctx.case(suite, (form, i), sample={'form': form, 'component': i, 'impl': got})
+                ctx.expect_eq(suite, 'is_public / is_protected / is_unlocked of a component of a mixed key differ from the model',
+                              {'suite': suite, 'form': form, 'component': i}, got, run.d.call('forms', bits))
+                if got != want[f]:
+                    ctx.fail(suite, 'a component of a mixed-protection key does not report its own lock state', {'suite': suite, 'form': form, 'component': i, 'impl': got})
+        run.with_form(form, k, mbody)
     for form in FORMS:
         k = w.assemble(form, [[0, [[SIGN, 0]]]], [])
 
@@ -831,6 +972,23 @@ def _run(ctx, pgpy, d):
             if out.startswith(('crash', 'exc')):
                 ctx.fail('unhashed-flags', 'key flags in the unhashed area of the self-certification crash the operation (PGPSignature.key_flags before repair df70557)',
                          dict(case, impl=out))
+    # repairs cab6d36 / a0cb78f / 1d6dbd1: the witnesses of Props/C16.v (C16_lockcheck_old_refuted, C16_crash_old_refuted, C16_identity_old_refuted);
+    # the implementation must follow the repaired model and differ from the model of the rule before
+    for name, cmd, form, wit, op, user, flags in (
+            ('locked-subkey-refuses', 'performl', 'm:pl', {'uids': [[0, [[AUTH, 0]]]], 'subs': [[[SIGN, 0]]]}, 'sign', None, [CERTIFY | AUTH, SIGN]),
+            ('locked-primary-usable-subkey', 'performl', 'm:lp', {'uids': [[0, [[AUTH, 0]]]], 'subs': [[[SIGN, 0]]]}, 'sign', None, [CERTIFY | AUTH, SIGN]),
+            ('unknown-user', 'performc', 'private', {'uids': [[0, [[AUTH, 0]]]], 'subs': [[[SIGN, 0]]]}, 'sign', 'nobody', None),
+            ('unbound-subkey-passed-over', 'performc', 'private', {'uids': [[0, [[AUTH, 0]]]], 'subs': [[], [[SIGN, 0]]]}, 'sign', None, [CERTIFY | AUTH, 0, SIGN]),
+            ('expired-binding-passed-over', 'performc', 'private', {'uids': [[0, [[AUTH, 0]]]], 'subs': [[[SIGN, 0, 'exp']], [[SIGN, 0]]]}, 'sign', None, [CERTIFY | AUTH, 0, SIGN]),
+            ('image-only-identity', 'performi', 'private', {'uids': [[IMAGE, [[SIGN, 0]]]], 'subs': []}, 'sign', None, [CERTIFY | SIGN])):
+        k = w.assemble(form, wit['uids'], wit['subs'])
+        case = dict(wit, suite='regress-policy', op=op, form=form, name=name, user=user, enforce=True)
+        out = run.one('regress-policy', k, form, True, op, user, case, flags=flags)
+        ut = '-' if user is None else '%x' % run.tok(user)
+        old = d.call(cmd, *describe(w, k, form, True, run.tok).split(' '), op, ut)
+        ctx.notes.append('policy witness %s: implementation %s, model of the rule before the repair (%s) %s' % (name, out, cmd, old))
+        if out == old or out.startswith(('crash', 'exc')):
+            ctx.fail('regress-policy', 'implementation behaves like the model of the rule before the repair (%s)' % name, dict(case, impl=out, before_repair=old))
     special_receivers(ctx, run, 'special')
     decrypt_routing(ctx, run, 'decrypt-route')
     if ctx.quick:
@@ -841,6 +999,11 @@ def _run(ctx, pgpy, d):
         ctx.exhaustive.append('%d operations: flag sets [0, Sign, EncryptStorage] on primary + 0..3 subkeys x {sign, encrypt} x enforcement x {private, public}' % n)
         n = sweep_identity(ctx, run, [0, SIGN, ENCC], 'identity')
         ctx.exhaustive.append('%d operations: identity choice (None / name / comment / e-mail / third uid / unknown) over two uids with flag sets from [0, Sign, EncC]' % n)
+        n = sweep_mixed(ctx, run, 'mixed', False)
+        ctx.exhaustive.append('%d operations: mixed protection - {no passphrase, passphrase} on the primary and on each of 1..2 subkeys, outside / inside unlock(), x flag '
+                              'placement x 7 operations x enforcement' % n)
+        n = sweep_identity_kinds(ctx, run, 'identity-kinds')
+        ctx.exhaustive.append('%d operations: image-only identity / image before user ids as default identity; unknown user= (4 strings incl. proper substrings) x operations x forms' % n)
         n = sweep_revoked(ctx, run, [0, SIGN, ENCC | ENCS], 'revoked')
         ctx.exhaustive.append('%d operations: certification with flag set from [0, Sign, EncC|EncS], then a revocation / attestation by the key (no flags, Sign, '
                               'EncC|EncS) or a newer certification with unhashed key flags x 0..1 subkeys x {sign, encrypt, certify} x enforcement x {private, public}' % n)
@@ -855,6 +1018,11 @@ def _run(ctx, pgpy, d):
         ctx.exhaustive.append('%d operations: flag sets %s on primary + 0..3 subkeys x {sign, certify, encrypt, decrypt} x enforcement x 4 key forms' % (n, fam3))
         n = sweep_identity(ctx, run, [0, SIGN, ENCC, ENCS, AUTH, NOFLAGS], 'identity')
         ctx.exhaustive.append('%d operations: identity choice over two uids with flag sets from 6 values' % n)
+        n = sweep_mixed(ctx, run, 'mixed', True)
+        ctx.exhaustive.append('%d operations: mixed protection - {no passphrase, passphrase} on the primary and on each of 1..2 subkeys, outside / inside unlock(), x flag '
+                              'placement (4 primary flag sets, 3-6 subkey vectors) x 7 operations x enforcement' % n)
+        n = sweep_identity_kinds(ctx, run, 'identity-kinds')
+        ctx.exhaustive.append('%d operations: image-only identity / image before user ids as default identity; unknown user= (4 strings incl. proper substrings) x operations x forms' % n)
         n = sweep_revoked(ctx, run, [0, SIGN, ENCC, ENCS, AUTH, NOFLAGS, SIGN | ENCS], 'revoked')
         ctx.exhaustive.append('%d operations: certification with one of 7 flag sets, then a revocation / attestation by the key (no flags, Sign, EncC|EncS) or a newer '
                               'certification with unhashed key flags x 0..1 subkeys x {sign, encrypt, certify} x enforcement x {private, public}' % n)
@@ -895,9 +1063,8 @@ def replay(ctx, case):
             k = w.assemble(form, case['uids'], case['subs'], shuffle=sh)
             uids = case['uids']
             flags = None
-            if uids and case.get('user') is None:
-                flags = [CERTIFY | recent(uids[0][1])] + [recent(s) for s in case['subs'] if s]
-                if len(flags) != 1 + len(case['subs']): flags = None
+            if uids and case.get('user') is None and not (len(uids) > 1 and any(u[0] == IMAGE for u in uids)):
+                flags = [CERTIFY | recent(uids[0][1])] + [recent(s) if s else 0 for s in case['subs']]
             run.with_form(form, k, lambda: run.one('replay', k, form, case.get('enforce', True), case['op'], case.get('user'), case,
                                                    flags=flags, has_uid=bool(uids)))
             run.bt.flush()
@@ -907,6 +1074,8 @@ def replay(ctx, case):
             if suite == 'decrypt-route': decrypt_routing(ctx, run, suite)
             elif suite == 'rebind': rebind_live(ctx, run, suite, 20)
             elif suite == 'revoked': sweep_revoked(ctx, run, [0, SIGN, ENCC | ENCS], suite)
+            elif suite == 'mixed': sweep_mixed(ctx, run, suite, False)
+            elif suite == 'identity-kinds': sweep_identity_kinds(ctx, run, suite)
             elif suite == 'forms': precondition_forms(ctx, run, suite)
             else: special_receivers(ctx, run, 'special')
             run.bt.flush()
